@@ -75,13 +75,13 @@ def merge_cases(ctx) -> None:
 
         outcomes = set()
         for stmts, _ in casesplit.paths(loop.body, decide):
-            vals = [s for s in stmts if isinstance(s, ast.Assign) and core.src(s.targets[0]) == 'value']
-            stores = [s for s in stmts if isinstance(s, ast.Assign) and core.src(s.targets[0]) == f'result[{kvar}]']
+            stores = [s for s in stmts if isinstance(s, ast.Assign) and isinstance(s.targets[0], ast.Subscript) and core.src(s.targets[0].slice) == kvar and not isinstance(s.targets[0].value, ast.Subscript)]
             if not stores:
                 outcomes.add('DROPPED')
                 continue
             stored = stores[-1].value
-            expr = vals[-1].value if (vals and core.src(stored) == 'value') else stored
+            vals = [s for s in stmts if isinstance(stored, ast.Name) and isinstance(s, ast.Assign) and core.src(s.targets[0]) == stored.id]
+            expr = vals[-1].value if vals else stored
             t = core.src(expr)
             if t == f'right[{kvar}]':
                 outcomes.add('RIGHT')
@@ -115,7 +115,7 @@ def merge_cases(ctx) -> None:
             tests = [c for c in ast.walk(st.test) if isinstance(c, ast.Call) and core.call_name(c) == 'isinstance' and len(c.args) == 2]
             seqtests = [c for c in tests if any(x in core.src(c.args[1]) for x in ('list', 'tuple', 'Sequence'))]
             if len(seqtests) == 2:
-                vals = [s for s in st.body if isinstance(s, ast.Assign) and core.src(s.targets[0]) == 'value']
+                vals = [s for s in st.body if isinstance(s, ast.Assign) and isinstance(s.targets[0], ast.Name)]
                 if vals:
                     produced = 'tuple' if isinstance(vals[0].value, ast.Tuple) else ('list' if isinstance(vals[0].value, (ast.List, ast.ListComp)) else core.src(vals[0].value).split('(')[0])
                     accepted = [core.src(c.args[1]) for c in seqtests]
